@@ -168,6 +168,46 @@ def run(prop, tier, seed, replay=None):
         f.write(b"this is not TZif data\n")
     with open(os.path.join(tzdir, "UTC0"), "wb") as f:
         f.write(ny)
+    # complete files that break one structural rule of RFC 9636 (the model's reader rejects each; only those are kept)
+    bad_struct = []
+    try:
+        zz = M.TZ(ny)
+        hdr_types = [(u, d, a) for (u, d, a) in zz.raw_types]
+        chars = b"".join(t[2].encode("latin1") + b"\0" for t in dict.fromkeys(zz.types))
+        amap2 = {}
+        cc = b""
+        tl2 = []
+        for (u, d, a), t in zip(zz.raw_types, zz.types):
+            if t[2] not in amap2:
+                amap2[t[2]] = len(cc)
+                cc += t[2].encode("latin1") + b"\0"
+            tl2.append((u, d, amap2[t[2]]))
+        trn = list(zip(zz.times, zz.idx))
+
+        def v2(types_, trans_, chars_):
+            def block(tlen):
+                tr = [(t, i) for t, i in trans_ if tlen == 8 or -2 ** 31 <= t < 2 ** 31]
+                h = b"TZif2" + b"\0" * 15 + struct.pack(">6l", 0, 0, 0, len(tr), len(types_), len(chars_))
+                f = ">l" if tlen == 4 else ">q"
+                return h + b"".join(struct.pack(f, t) for t, _ in tr) + bytes(i for _, i in tr) + b"".join(struct.pack(">lBB", *t) for t in types_) + chars_
+            return block(4) + block(8) + b"\n" + zz.footer.encode("latin1") + b"\n"
+        cand = {
+            "BadAbbrIdxEqCharcnt": v2([tl2[0][:2] + (len(cc),)] + tl2[1:], trn, cc),
+            "BadAbbrIdxBeyond": v2([tl2[0][:2] + (len(cc) + 3,)] + tl2[1:], trn, cc),
+            "BadTypeIdxEqTypecnt": v2(tl2, trn[:-1] + [(trn[-1][0], len(tl2))], cc),
+            "BadTimesDescending": v2(tl2, trn[:-2] + [(trn[-1][0], trn[-2][1]), (trn[-2][0], trn[-1][1])], cc),
+            "BadNoNulAtEnd": v2(tl2, trn, cc[:-1] + b"X"),
+        }
+        for nm, data in cand.items():
+            pth = os.path.join(tzdir, nm)
+            with open(pth, "wb") as f:
+                f.write(data)
+            if loadable(pth):
+                os.unlink(pth)
+            else:
+                bad_struct.append(nm)
+    except Exception:
+        bad_struct = []
     with open(os.path.join(tzdir, "Garbage"), "wb") as f:
         f.write(b"this is not TZif data\n" * 10)
     with open(os.path.join(tzdir, "Empty"), "wb") as f:
@@ -189,7 +229,7 @@ def run(prop, tier, seed, replay=None):
     names = ["America/New_York", "Europe/Dublin", "America/Argentina/Ushuaia", abs_ny, "file:America/New_York", "file:" + abs_ny, "", "Dir", "Trunc", "TruncNoNL", "TruncFooter", "TruncMidFooter",
              "Leap", "Leap64", "LeapV1", "Garbage", "Empty", ":America/New_York", ":Colon", "America/../Europe/Dublin", "UTC", "UTC0", "Fixed/UTC+01:00:00",
              "Fixed/UTC-23:59:59", "Fixed/UTC+00:00:00", "Fixed/UTC+24:00:01", "No/Such/Zone", "file:", "file:/nonexistent/x", "localtime", "Etc/UTC",
-             "Secret", "america/new_york", "America/New_York/", os.path.join(tzdir, "Asia/Kolkata")]
+             "Secret", "america/new_york", "America/New_York/", os.path.join(tzdir, "Asia/Kolkata")] + bad_struct
     TZDIRS = {"unset": None, "empty": "", "valid": tzdir, "nonexistent": os.path.join(w, "no-such-dir"), "file": afile}
     TZS = {"unset": None, "empty": "", "X": "America/New_York", ":X": ":Europe/Dublin", "localtime": "localtime", ":localtime": ":localtime",
            "::X": "::Europe/Dublin", "invalid": "No/Such", "abs": abs_ny, ":abs": ":" + abs_ny, "fixed": "Fixed/UTC-03:30:00", "UTC": "UTC", "dir": "Dir"}
@@ -231,8 +271,10 @@ def run(prop, tier, seed, replay=None):
         def drop():
             os.setgid(nobody.pw_gid)
             os.setuid(nobody.pw_uid)
+        # the children run *inside* the test tree: a relative name that does not resolve under $TZDIR must not be found
+        # relative to the working directory either
         p = subprocess.run(args, env=env, stdout=subprocess.PIPE, stderr=subprocess.PIPE, text=True, errors="replace", timeout=120,
-                           preexec_fn=drop if as_nobody else None)
+                           preexec_fn=drop if as_nobody else None, cwd=tzdir)
         return combo, menv, p
 
     evaluations = 0
